@@ -26,13 +26,13 @@ CLAIMED = {
          "Variants.tla defines the relation 'b is a valid encoding of v' beyond the canonical forms (BER length forms, indefinite lengths, "
          "constructed strings, SET order, explicit DEFAULTs, TRUE octet, unknown extension additions; BASIC-PER/OER explicit defaults and "
          "unknown extensions; XER layouts). TLC enumerates every (type, value, style); each variant is decoded by the generated code and the "
-         "trace is accepted only for RC_OK, full length consumed, the specified value and the canonical DER re-encoding.",
+         "trace is accepted only for RC_OK, full length consumed, the specified value and the canonical DER re-encoding. Also: BER length padding beyond sizeof(size_t), REAL in every binary form of X.690 8.5.7 and as ISO 6093 text, up to 130 unknown extension additions, XER character references, time values in non-canonical text.",
          "TLA+ variant-encoding relation + TLC enumeration + trace validation of decode results"),
  "C05": ("model_checking", "7 C05",
          "Codec.tla models a restartable decoding session (stream, position, per-call contract: WMORE with consumed <= presented while "
          "octets are missing; OK, everything consumed and the value delivered once they are all there). TLC generates, for every (type, "
          "value), every 2-chunk split of the reference encoding (thorough: every chunking of short encodings, octet-wise feeding); the "
-         "driver re-presents unconsumed octets as the manual prescribes and every decoder call is one trace event validated by TLC.",
+         "driver re-presents unconsumed octets as the manual prescribes and every decoder call is one trace event validated by TLC. The same splits are applied to the all-indefinite BER form of every value.",
          "TLA+ restartable-decoder contract + TLC-enumerated chunk schedules + per-call trace validation"),
  "C06": ("model_checking", "7 C06",
          "in Codec.tla a representation change (BuildRep) leaves the abstract value unchanged, and the encoders are functions of the abstract "
@@ -50,21 +50,21 @@ CLAIMED = {
          "Codec.tla states the encoder API contract as relations (EncodeCb: a failed callback => -1/EIO, otherwise ret = octets delivered = the "
          "size every other entry point reports; EncodeBuf: same size for every buffer size, nothing written beyond the buffer, the encoding when it "
          "fits; Encode to a new buffer: buffer iff success; unvouched structures: -1 with an errno or a consistent encoding; Crash/Timeout events "
-         "have no action). TLC enumerates (type, value | violated value | zero structure) x syntax x buffer size x failing-callback index.",
+         "have no action). TLC enumerates (type, value | violated value | zero structure) x syntax x buffer size x failing-callback index. Callback failure is swept over every callback index (once / from that index on) inside the driver; structures that denote no value (absent mandatory pointer member, unselected CHOICE) must fail to encode.",
          "TLA+ encoder-sink contract + TLC-enumerated sizes / failure indices + trace validation"),
  "C14": ("model_checking", "7 C14",
          "Codec.tla tracks which slots own a structure (none / value / raw / zero), an armed allocation failure (fault) and the restartable "
          "session; Free of the last owner requires an empty allocation ledger, Reset requires an all-zero structure that then decodes like a fresh one, "
          "a call in which the armed failure fired may only fail or succeed cleanly. TLC enumerates the histories (starved decode / garbage / reset / "
          "re-decode / encode / free x failure of the k-th allocation); the driver's link-time wrapped allocator supplies the ledger and the failures; "
-         "ASan turns double frees into Crash events, which no action explains.",
+         "ASan turns double frees into Crash events, which no action explains. Allocation failure is swept over every allocation index of every encode and decode; valid encodings of values the native C representation cannot hold are decoded and freed.",
          "TLA+ lifecycle/ledger state machine + TLC-enumerated histories and allocation-failure points + trace validation (ASan build)"),
  "C04": ("exploration", "7 C04",
          "TLC applies the mutation actions of MC_Gen (every truncation, byte substitutions at every position, duplicated tail, dropped byte, "
          "appended octets) to the reference encodings in DER/OER/UPER/XER; each mutated input is decoded, printed, validated, re-encoded, the "
          "re-encoding decoded and compared, and freed, in an ASan+UBSan build; Trace_Codec accepts only rc in {OK,WMORE,FAIL}, consumed <= size, a "
          "consistent re-encoding and an empty ledger; sanitizer reports, aborts and watchdog timeouts are Crash/Timeout events. Memory safety is "
-         "observed on the explored inputs, not proved.",
+         "observed on the explored inputs, not proved. Inputs include indefinite-form BER, 16K..64K-element values encoded by the implementation itself, and OBJECT IDENTIFIERs of up to 45 arcs.",
          "TLC-generated structure-aware mutations + sanitizer build + TLA+ trace validation of the decode contract"),
  "C16": ("model_checking", "7 C16",
          "Helpers.tla states the conversion helpers as relations (contents = minimal two's complement; back conversion ok iff the value fits the C "
@@ -82,7 +82,7 @@ CLAIMED = {
          "references after the IMPLICIT/EXPLICIT/AUTOMATIC transformation; CHOICE / SET distinctness; SEQUENCE OPTIONAL runs; duplicate identifiers and "
          "enumeration items; dangling references). MC_Legal.tla is the module-construction state machine; TLC enumerates every module of the stated "
          "size breadth-first, asn1c built from the working tree is run on each, and TLC validates the run: exit = 0 <=> Legal, rejection with a "
-         "diagnostic and without output files, never a signal.",
+         "diagnostic and without output files, never a signal. The machine also places an extension marker, duplicates identifiers / enumeration items behind it, uses alias references, and imports a type from a second module that may be missing, lack the symbol, or not export it.",
          "TLA+ legality rules + TLC-enumerated module construction state machine + trace validation of compiler runs"),
  "C09": ("model_checking", "7 C09",
          "Asn1Types.tla gives constraint expressions a set-theoretic meaning (Sat) and derives the PER-visible (Eff) and OER-visible (OerEff) effective "
